@@ -4,12 +4,12 @@
 # Evidence/replays of these runs go to a scratch directory (VERIF_OUT), never to /verif/evidence.
 cd "$(dirname "$0")/.."
 TIER="${1:-quick}"; shift
-IDS="${@:-$(ls seeded)}"
+IDS="${@:-$(ls -d seeded/*/ | xargs -n1 basename)}"
 OUT=$(mktemp -d /tmp/seeded_run.XXXX)
 if [ -n "$(git -C /repo status --porcelain)" ]; then echo "/repo is not clean; refusing"; exit 2; fi
 for id in $IDS; do
   prop=$(python3 -c "import json;print(json.load(open('seeded/$id/meta.json'))['property'])")
-  if ! git -C /repo apply seeded/$id/patch.diff; then echo "NOAPPLY $id"; continue; fi
+  if ! git -C /repo apply "$(pwd)/seeded/$id/patch.diff"; then echo "NOAPPLY $id"; continue; fi
   t0=$(date +%s)
   res=$(VERIF_OUT="$OUT" ./check $prop $TIER 2>&1); rc=$?
   git -C /repo checkout -- . ; git -C /repo clean -fdq -e data 2>/dev/null
